@@ -125,7 +125,7 @@ func cmdCheck(args []string) {
 		funcs = append(funcs, &FuncReport{Key: fr.Key, Props: ct.Props, Trusted: ct.Trusted, Paths: fr.Paths, Notes: fr.Notes, Abstracted: fr.Abstracted, Used: fr.Used, Err: fr.Err, File: relPath(ct.Fn.File)})
 		for _, o := range fr.Obls {
 			o.Name = ct.Pkg.Types.Name() + "." + o.Name
-			if reason, ok := unclaimedReason(ct, o.Name); ok {
+			if reason, ok := unclaimedReason(ct, o.Name, o.Text); ok {
 				o.Text = "[unclaimed: " + reason + "] " + o.Text
 				o.Kind = "unclaimed:" + o.Kind
 			}
